@@ -52,8 +52,9 @@ package verifier
 //@   circuit
 //@   requires chipok(c.poseidonGlChip.Gl)
 //@   honest forall(k, 0, len(publicInputs), publicInputs[k].Limb < pow2(144) * P)
-//@   ghost reduced []gl.Variable = callresult("poseidon.GoldilocksChip.HashNoPad", 0)
-//@   ensures forall(k, 0, 4, canon(res[k]))
+//@   ghost reduced []gl.Variable = callghost("poseidon.GoldilocksChip.HashNoPad", 0, "inputVars")
+//@   ensures len(reduced) == len(publicInputs) && forall(k, 0, len(publicInputs), canon(reduced[k]) && reduced[k].Limb == publicInputs[k].Limb % P)
+//@   ensures forall(k, 0, 4, canon(res[k]) && res[k].Limb == pos_out(reduced, k))
 
 // ------------------------------------------------------------------ Fiat-Shamir transcript (C11): plonky2 get_challenges
 // views of the challenger after each stage; d = circuit digest, pih = public-input hash, n = num_challenges
@@ -77,6 +78,7 @@ package verifier
 //@   requires c.commonData.Config.NumChallenges <= pow2(16) && c.commonData.Config.FriConfig.NumQueryRounds <= pow2(32)
 //@   ghost ops fri.Openings = callresult("fri.Chip.ToOpenings", 0)
 //@   ensures[openings] to_openings_ok(ops, proof.Openings)
+//@   ensures[canon-challenges] canonSeq(res.PlonkBetas) && canonSeq(res.PlonkGammas) && canonSeq(res.PlonkAlphas) && canonQE(res.PlonkZeta) && canonQE(res.FriChallenges.FriAlpha) && canonQEs(res.FriChallenges.FriBetas)
 //@   ensures[betas] len(res.PlonkBetas) == c.commonData.Config.NumChallenges && forall(k, 0, len(res.PlonkBetas), canon(res.PlonkBetas[k]) &&
 //@        res.PlonkBetas[k].Limb == ch_get_val(ch_getn_st(tr_v1(verifierData.CircuitDigest, publicInputsHash, proof.WiresCap), k)))
 //@   ensures[gammas] len(res.PlonkGammas) == c.commonData.Config.NumChallenges && forall(k, 0, len(res.PlonkGammas), canon(res.PlonkGammas[k]) &&
@@ -97,11 +99,38 @@ package verifier
 //@   ensures[fri-queries] len(res.FriChallenges.FriQueryIndices) == c.commonData.Config.FriConfig.NumQueryRounds && forall(k, 0, c.commonData.Config.FriConfig.NumQueryRounds, canon(res.FriChallenges.FriQueryIndices[k]) &&
 //@        res.FriChallenges.FriQueryIndices[k].Limb == ch_get_val(ch_getn_st(ch_get_st(fri_after_pow(tr_v8(verifierData.CircuitDigest, publicInputsHash, proof.WiresCap, c.commonData.Config.NumChallenges, proof.PlonkZsPartialProductsCap, proof.QuotientPolysCap, ops.Batches[0].Values, ops.Batches[1].Values), proof.OpeningProof.CommitPhaseMerkleCaps, proof.OpeningProof.FinalPoly.Coeffs, proof.OpeningProof.PowWitness.Limb)), k)))
 
+// C01: the whole-verifier composition.  Whenever the circuit is satisfied (SOUND mode, arbitrary hint values) the
+// postcondition holds: every step of plonky2's verify() was executed (`calls`), the proof is canonical, the
+// public-input hash is Poseidon of the reduced public inputs, every PLONK challenge is the transcript value of C11 over
+// (circuit digest, public-input hash, the three caps), the vanishing-polynomial identity of C16 holds at that zeta for
+// every challenge round, the proof-of-work response drawn from the same transcript has its leading zeros, the FRI
+// proof has the shape plonky2 demands and one query round per configured round is verified (VerifyFriProof's loop
+// calls verifyQueryRound in every iteration; what a round checks is C12/C13/C20).
 //@ func (c *VerifierChip) Verify(proof variables.Proof, publicInputs []gl.Variable, verifierData variables.VerifierOnlyCircuitData)
-//@   props C17 C14
+//@   props C01 C17 C14
 //@   circuit sound-only
 //@   requires vchip_ok(c)
-//@   ensures canonProof(proof)
+//@   calls verifier.VerifierChip.rangeCheckProof verifier.VerifierChip.GetPublicInputsHash verifier.VerifierChip.GetChallenges plonk.PlonkChip.Verify fri.Chip.GetInstance fri.Chip.ToOpenings fri.Chip.VerifyFriProof
+//@   ghost pih poseidon.GoldilocksHashOut = callresult("verifier.VerifierChip.GetPublicInputsHash", 0)
+//@   ghost reduced []gl.Variable = callghost("verifier.VerifierChip.GetPublicInputsHash", 0, "reduced")
+//@   ghost ch variables.ProofChallenges = callresult("verifier.VerifierChip.GetChallenges", 0)
+//@   ghost inst fri.InstanceInfo = callresult("fri.Chip.GetInstance", 0)
+//@   ghost vt []gl.QuadraticExtensionVariable = callghost("plonk.PlonkChip.Verify", 0, "vanishingTerms")
+//@   ghost zpn gl.QuadraticExtensionVariable = callghost("plonk.PlonkChip.Verify", 0, "zetaPowN")
+//@   ensures[canon] canonProof(proof)
+//@   ensures[pi-hash] len(reduced) == len(publicInputs) && forall(k, 0, len(publicInputs), reduced[k].Limb == publicInputs[k].Limb % P) && forall(k, 0, 4, pih[k].Limb == pos_out(reduced, k))
+//@   ensures[alphas] len(ch.PlonkAlphas) == c.commonData.Config.NumChallenges && forall(k, 0, len(ch.PlonkAlphas),
+//@        ch.PlonkAlphas[k].Limb == ch_get_val(ch_getn_st(tr_v4(verifierData.CircuitDigest, pih, proof.WiresCap, c.commonData.Config.NumChallenges, proof.PlonkZsPartialProductsCap), k)))
+//@   ensures[zeta] ch.PlonkZeta == tuple(ch_get_val(tr_v6(verifierData.CircuitDigest, pih, proof.WiresCap, c.commonData.Config.NumChallenges, proof.PlonkZsPartialProductsCap, proof.QuotientPolysCap)),
+//@        ch_get_val(ch_get_st(tr_v6(verifierData.CircuitDigest, pih, proof.WiresCap, c.commonData.Config.NumChallenges, proof.PlonkZsPartialProductsCap, proof.QuotientPolysCap))))
+//@   ensures[zeta-pow-n] zpn == qe_sq_iter(ch.PlonkZeta, c.plonkChip.commonData.DegreeBits)
+//@   ensures[identity] forall(i, 0, c.plonkChip.commonData.Config.NumChallenges,
+//@        qe_horner_s(vt, ch.PlonkAlphas[i].Limb, 0) ==
+//@        qe_mulo(qe_subo(zpn, tuple(1, 0)), qe_horner(proof.Openings.QuotientPolys[pp_start(c.plonkChip.commonData.QuotientDegreeFactor, i) : pp_start(c.plonkChip.commonData.QuotientDegreeFactor, i) + c.plonkChip.commonData.QuotientDegreeFactor], zpn, 0)))
+//@   ensures[instance] inst.Batches[0].Point == ch.PlonkZeta && len(inst.Oracles) == 4 && len(inst.Batches) == 2
+//@   ensures[fri-pow] ch.FriChallenges.FriPowResponse.Limb < pow2(64 - c.friChip.friParams.Config.ProofOfWorkBits)
+//@   ensures[fri-shape] shape_fri(proof.OpeningProof, inst, c.friChip.friParams)
+//@   ensures[fri-rounds] len(proof.OpeningProof.QueryRoundProofs) == c.friChip.friParams.Config.NumQueryRounds && len(ch.FriChallenges.FriQueryIndices) == len(proof.OpeningProof.QueryRoundProofs)
 
 // The fixed wrapper: four 128-bit public values pack the sixteen 32-bit plonky2 public inputs, big-endian.
 //@ def pack32(s, o) = s[o].Limb * pow2(96) + s[o+1].Limb * pow2(64) + s[o+2].Limb * pow2(32) + s[o+3].Limb
